@@ -157,6 +157,12 @@ fn real_main() {
             let t = std::time::Instant::now();
             let o = poly::universe_omega(tier);
             println!("of which {} F-omega programs ({:.1}s)", o.len(), t.elapsed().as_secs_f64());
+            let t = std::time::Instant::now();
+            let vf = poly::universe_vfun(tier);
+            println!("of which {} value-function programs ({:.1}s), reference rejects {}", vf.len(), t.elapsed().as_secs_f64(), vf.iter().filter(|p| poly::synth_c(&poly::Scope::default(), p).is_err()).count());
+            for p in vf.iter().rev().step_by(vf.len().max(1) / 3 + 1).take(3) {
+                println!("{}", poly::program(p, false));
+            }
             let bad = o.iter().filter(|p| poly::synth_c(&poly::Scope::default(), p).is_err()).count();
             println!("reference checker rejects {} of them", bad);
             for p in o.iter().rev().step_by(o.len().max(1) / 4 + 1).take(4) {
